@@ -8,6 +8,7 @@ E1  TLC on TaskSet.tla: NoStartAfterCancel (a body starts at the cancellation ch
 E4+E3  the deterministic program (0-thread pool; bulk FQ queues one task -> overloaded; cancel; schedule) for both task
     costs, and random controlled executions with cancels at random points, validated step by step by TLC.
 """
+import os
 import random
 
 import taskset_common as tc
@@ -30,6 +31,14 @@ CASCADE = [
     'mult=32;sets=ctsL.4.0,ctsL.1.1;throws=;d1=newpool1,new1,schedfq1.1,wait1,del1,delpool;b1=cancel1,new2,sched2.2,schedfq2.3,bulk2.4.2,wait2,del2',
     # kOff child is NOT cancelled by the cascade
     'mult=32;sets=ctsL.4.0,ts.1.0;throws=;d1=newpool1,new1,schedfq1.1,wait1,del1,delpool;b1=new2,schedfq2.2,cancel1,sched2.3,wait2,del2',
+]
+# a second thread cancels the parent while its tasks create, use and destroy nested (kOn) sets: the cascade walks the child
+# list under the parent's mutex while children register / unregister (many schedules: the window is a few steps wide)
+CASCADE_RACE = [
+    'mult=32;sets=ctsL.4.0,ts.1.1,ts.1.1;throws=;d1=newpool2,new1,schedfq1.1,schedfq1.2,wait1,sync,del1,delpool;d2=await1,cancel1;'
+    'b1=new2,sched2.3,wait2,del2;b2=new3,sched3.4,wait3,del3',
+    'mult=32;sets=ctsH.4.0,ctsL.1.1,ctsL.1.1;throws=;d1=newpool2,new1,schedfq1.1,schedfq1.2,wait1,sync,del1,delpool;d2=await1,cancel1;'
+    'b1=new2,schedfq2.3,wait2,del2;b2=new3,schedfq3.4,wait3,del3',
 ]
 FIXED = [
     'mult=1;sets=ts.1.0;throws=;d1=newpool1,new1,schedfq1.1,schedfq1.2,cancel1,sched1.3,bulk1.4.2,bulkfq1.6.1,schedfq1.7,wait1,del1,delpool',
@@ -63,6 +72,7 @@ def run(ctx):
     r = tc.run_scenarios(ctx, exe, [
         ('deterministic cancel-overload-schedule', DETERMINISTIC, 1),
         ('directed parent cascade', CASCADE, 2),
+        ('parent cancel racing child registration and teardown', CASCADE_RACE, int(os.environ.get('VERIF_C04_RACE_N', 120 if thorough else 30))),
         ('fixed programs', FIXED if thorough else FIXED[ctx.seed % 2::2], n),
         ('random programs with cancels', scens, n)], WHAT, ctx.seed)
     ctx.sample({'programs': DETERMINISTIC[:2] + scens[:3]})
